@@ -148,3 +148,8 @@ SUBS = [
     Sub("crossjoin", check_cross, strategy=cross_case, quick=1500, thorough=20000),
 ]
 KNOWN = {}
+
+# second use of one view object after its sources were edited (shared sub-check, see pv/reuse.py)
+from pv import reuse  # noqa: E402
+SUBS.append(reuse.sub(ID))
+RULE += reuse.RULE
